@@ -55,7 +55,7 @@ class Pipeline(Instance):
         self.n_concrete = 1
         self.bounds = {"worker threads": threads, "input": f"{len(samples)} sample(s), contigs {[len(d) for _, cs in samples for _, d in cs]} bases (concrete), k={k}, {len(splitters)} splitter k-mers",
                        "symbolic bases": [f"sample {si} contig {ci} position {pos} over codes {list(sym_alpha)}" for si, ci, pos in sym],
-                       "symbolic edits": [f"one {kind} in sample {si} contig {ci} at every position" + ("" if kind in ("del", "rc") else f" with every code of {list(sym_alpha)}") for kind, si, ci in edits], "driver": driver, "queue capacity (bytes)": qcap, "zstd stub": zstd + " (deterministic lossless codec; 'token' always shrinks, 'store' never does)", "config": {n: (v.v if hasattr(v, 'v') else v) for n, v in cfg.items()},
+                       "symbolic edits": [f"one {kind} in sample {si} contig {ci} at every position" + ("" if kind in ("del", "rc", "delrange") else f" with every code of {list(sym_alpha)}") for kind, si, ci in edits], "driver": driver, "queue capacity (bytes)": qcap, "zstd stub": zstd + " (deterministic lossless codec; 'token' always shrinks, 'store' never does)", "config": {n: (v.v if hasattr(v, 'v') else v) for n, v in cfg.items()},
                        "schedules": f"every interleaving of producer and workers at lock/wait/barrier/sleep points with at most {preempt} preemption(s); blocking switches unbounded"}
 
     # ---------------------------------------------------------------- driving the real API
@@ -90,6 +90,12 @@ class Pipeline(Instance):
                 if kind == "rc":
                     if e.choose(2, f"rc{j}"):
                         d[:] = [Int(8, 0, 3 - x.v if x.v < 4 else x.v) for x in reversed(d)]
+                    continue
+                if kind == "delrange":
+                    # delete a whole range (a deletion that can remove a splitter together with the body of the neighbouring segment)
+                    ln = 2 + e.choose(7, f"len{j}")
+                    pos = e.choose(max(len(d) - ln, 0) + 1, f"pos{j}")
+                    del d[pos:pos + ln]
                     continue
                 pos = e.choose(len(d) + (1 if kind == "ins" else 0), f"pos{j}")
                 if kind == "del":
@@ -314,6 +320,16 @@ SPL = [(0, 0, 1), (3, 3, 0)]
 ONE = [(b"s1", [(b"c1", C1[:11])])]
 TWO = [(b"s1", [(b"c1", C1), (b"c2", [3, 3, 2])]), (b"s2", [(b"c1", C2)])]
 THREE = [(b"s1", [(b"c1", C1), (b"c2", C3)]), (b"s2", [(b"c1", C2), (b"c2", C3)]), (b"s3", [(b"c1", C1)])]
+
+
+def _rc(c):
+    return [(3 - b) if b < 4 else b for b in reversed(c)]
+
+
+# shared groups, a whole-contig reverse complement, an IUPAC code, an N-run, a contig of exactly k bases, one shorter than k, identical contigs
+RICH = [(b"s1", [(b"c1", C1), (b"c2", [3, 3, 2]), (b"c3", [1])]),
+        (b"s2", [(b"c1", _rc(C1)), (b"c2", C1[:8] + [7] + C1[9:]), (b"c3", C1)]),
+        (b"s3", [(b"c1", C1[:7] + [4, 4, 4, 4] + C1[7:]), (b"c2", C2)])]
 
 INSTANCES = {}
 
